@@ -313,10 +313,14 @@ pub const ORIG_CLASSES: &[&str] = &[
     "p.$$Q$R",
 ];
 
-pub const OBF_METHODS: &[&str] = &["a", "b", "aa", "<init>", "c", "<clinit>"];
+pub const OBF_METHODS: &[&str] = &["a", "b", "aa", "<init>", "c", "<clinit>", "a$b"];
 
-pub const ORIG_METHODS: &[&str] =
-    &["run", "onCreate", "<init>", "lambda$main$0", "access$100", "get", "set", "<clinit>", "invoke"];
+pub const ORIG_METHODS: &[&str] = &[
+    "run", "onCreate", "<init>", "lambda$main$0", "access$100", "get", "set", "<clinit>", "invoke",
+    // names whose concatenation with a neighbouring obfuscated name / argument string collides
+    // with another (obfuscated, args, original) triple: (a,int,run)~(a,,intrun), (a,,arun)~(aa,,run)
+    "intrun", "arun",
+];
 
 pub const ARGS: &[&str] = &[
     "",
@@ -326,6 +330,8 @@ pub const ARGS: &[&str] = &[
     "java.lang.Object,java.lang.Object",
     "android.view.View",
     "int[],java.lang.String[]",
+    // sorts before "android.view.View" + ')' when name and params are concatenated
+    "android.view.View$OnClickListener",
 ];
 
 pub const RET_TYPES: &[&str] =
@@ -719,4 +725,50 @@ pub fn is_representable(ast: &MapAst) -> bool {
         }
     }
     true
+}
+
+
+/// One class whose obfuscated method `a` has `n` entries (a mix of entries
+/// sharing one range, entries with distinct ranges and entries without a
+/// range), plus a few ordinary members: sizes beyond any small-slice or
+/// recursion-depth threshold.
+pub fn huge_group_ast(rng: &mut Rng, n: usize) -> MapAst {
+    let mut items = vec![Item::Class { orig: "com.example.Huge".into(), obf: "h.g".into() }];
+    let shared = (10u128, 20u128);
+    for i in 0..n {
+        let kind = rng.below(10);
+        let (start, end) = match kind {
+            0..=4 => (Some(shared.0), Some(shared.1)),
+            5..=6 => (None, None),
+            _ => {
+                let a = 30 + (i as u128 % 5000) * 3;
+                (Some(a), Some(a + 2))
+            }
+        };
+        let orig = if i == 0 || i + 1 == n { "edge".to_string() } else { format!("m{}", i % 7) };
+        items.push(Item::Method(MethodEntry {
+            start,
+            end,
+            ret: "void".into(),
+            orig_class: if rng.chance(1, 5) { Some("com.example.Other".into()) } else { None },
+            orig,
+            args: rng.pick(&["", "int", "int,long"]).to_string(),
+            ostart: Some(100 + i as u128),
+            oend: if kind % 2 == 0 { Some(100 + i as u128 + 10) } else { None },
+            obf: "a".into(),
+        }));
+    }
+    items.push(Item::Class { orig: "com.example.Small".into(), obf: "s".into() });
+    items.push(Item::Method(MethodEntry {
+        start: Some(1),
+        end: Some(3),
+        ret: "void".into(),
+        orig_class: None,
+        orig: "run".into(),
+        args: "".into(),
+        ostart: Some(5),
+        oend: Some(7),
+        obf: "a".into(),
+    }));
+    MapAst { items }
 }
